@@ -5,6 +5,7 @@ import (
 	"fmt"
 	"os"
 	"path/filepath"
+	"regexp"
 	"sort"
 	"strings"
 	"time"
@@ -69,8 +70,22 @@ func main() {
 		fmt.Println(dslprint.Func(s, "D"))
 		return
 	case "gen-sample":
-		// debugging aid: print the DSL of a few specs
+		// debugging aid: VERIF_SAMPLE=<Cxx>:<index> prints the DSL of the design a check draws at that index
+		// (honours --tier / VERIF_SEED); without it, the JSON of a few mixed specs
 		run := vc.New("sample")
+		if v := os.Getenv("VERIF_SAMPLE"); v != "" {
+			var prop string
+			var idx int
+			if i := strings.Index(v, ":"); i > 0 {
+				prop = v[:i]
+				fmt.Sscanf(v[i+1:], "%d", &idx)
+			}
+			if sp := sampleSpec(run, prop, idx); sp != nil {
+				fmt.Println(dslprint.Func(sp, "D"))
+				fmt.Println("// features:", sp.Features)
+			}
+			return
+		}
 		for i := 0; i < 3; i++ {
 			s := gen.Generate(run.Rand(uint64(i)), fmt.Sprintf("s%d", i), gen.Opts{Profile: "mixed"})
 			fmt.Println(string(s.JSON()))
@@ -101,6 +116,10 @@ func witnessOf(d *pipeline.Design) c01Witness {
 func judgeC01(run *vc.Run, d *pipeline.Design, rejects map[string]int) {
 	run.Eval(1)
 	run.Count("designs_"+d.Status, 1)
+	streaming := hasStreaming(d.Spec)
+	if streaming {
+		run.Count("stream_designs_"+d.Status, 1)
+	}
 	switch d.Status {
 	case "rejected":
 		first := strings.SplitN(d.Errors, "\n", 2)[0]
@@ -158,6 +177,16 @@ func judgeC01(run *vc.Run, d *pipeline.Design, rejects map[string]int) {
 		return
 	}
 	run.Count("designs_compiled", 1)
+	if streaming {
+		run.Count("stream_designs_compiled", 1)
+		for _, sv := range d.Spec.Services {
+			for _, m := range sv.Methods {
+				if m.Stream != "" && m.HTTP != nil {
+					run.Count("stream_methods_compiled_"+m.Stream, 1)
+				}
+			}
+		}
+	}
 	run.Count("files_generated", len(d.Sums))
 	run.Distinct(d.Spec.Signature())
 	for _, f := range d.Spec.Features {
@@ -169,6 +198,18 @@ func judgeC01(run *vc.Run, d *pipeline.Design, rejects map[string]int) {
 			run.Seen("feature_pairs", fs[i]+"+"+fs[j])
 		}
 	}
+}
+
+// hasStreaming reports whether a spec has an HTTP streaming (websocket) method.
+func hasStreaming(sp *spec.Spec) bool {
+	for _, sv := range sp.Services {
+		for _, m := range sv.Methods {
+			if m.Stream != "" && m.HTTP != nil {
+				return true
+			}
+		}
+	}
+	return false
 }
 
 func firstLine(s string) string { return strings.SplitN(strings.TrimSpace(s), "\n", 2)[0] }
@@ -355,6 +396,19 @@ func c01Trigger(sp *spec.Spec, role, dg string) string {
 				}
 			}
 		}
+	case strings.HasPrefix(role, "gen/http/") && (strings.HasSuffix(role, "/types.go") || strings.HasSuffix(role, "/encode_decode.go")) &&
+		(has("StreamingBody") || streamPayloadNames(sp, dg)):
+		// the streaming body never goes through makeHTTPType (findings/C01-stream-body-http-type): a StreamingPayload
+		// that reaches a union or a primitive alias type; the diagnostic names a ...StreamingBody type, the alias or the union
+		if streamPayloadHas(sp, func(t *spec.Type) bool { return aliasOrUnionName(sp, t, nil) }) {
+			return "streaming-payload-union-or-alias"
+		}
+	case strings.HasPrefix(role, "gen/http/") && strings.HasSuffix(role, "/websocket.go") && has("undefined: utf8"):
+		// the websocket files inline the validation of streamed messages that are not user types but do not
+		// import unicode/utf8 (findings/C01-stream-validation-utf8-import)
+		if streamMsgStringLength(sp) {
+			return "streaming-message-string-length"
+		}
 	case strings.HasPrefix(role, "cmd/") && has("undefined: httpPortF"):
 		// goa example for an API without any HTTP endpoint (golden server-sercice-for-only-grpc)
 		for _, sv := range sp.Services {
@@ -370,4 +424,155 @@ func c01Trigger(sp *spec.Spec, role, dg string) string {
 		return "example-main-of-grpc-only-api"
 	}
 	return ""
+}
+
+// streamPayloadHas reports whether the StreamingPayload of some HTTP streaming method reaches (through
+// attributes, elements, keys and user types) a type satisfying pred.
+func streamPayloadHas(sp *spec.Spec, pred func(t *spec.Type) bool) bool {
+	seen := map[string]bool{}
+	var walk func(t *spec.Type) bool
+	walk = func(t *spec.Type) bool {
+		if t == nil {
+			return false
+		}
+		if pred(t) {
+			return true
+		}
+		switch t.Kind {
+		case spec.Ref:
+			if seen[t.Ref] {
+				return false
+			}
+			seen[t.Ref] = true
+			if ut := sp.Type(t.Ref); ut != nil {
+				return walk(ut.Def)
+			}
+		case spec.Array, spec.Map:
+			if t.Key != nil && walk(t.Key.Type) {
+				return true
+			}
+			return t.Elem != nil && walk(t.Elem.Type)
+		case spec.Object, spec.Union:
+			for _, a := range t.Attrs {
+				if walk(a.Type) {
+					return true
+				}
+			}
+		}
+		return false
+	}
+	for _, sv := range sp.Services {
+		for _, m := range sv.Methods {
+			if m.Stream != "" && m.HTTP != nil && m.StreamP != nil && walk(m.StreamP.Type) {
+				return true
+			}
+		}
+	}
+	return false
+}
+
+// aliasOrUnionName reports whether t is a reference to a primitive alias type or an object with a union
+// attribute; with names != nil the normalised names of the alias / union attributes are collected.
+func aliasOrUnionName(sp *spec.Spec, t *spec.Type, names map[string]bool) bool {
+	found := false
+	switch t.Kind {
+	case spec.Union:
+		found = true
+	case spec.Ref:
+		if ut := sp.Type(t.Ref); ut != nil && ut.Kind == "alias" {
+			found = true
+			if names != nil {
+				names[spec.Norm(ut.Name)] = true
+			}
+		}
+	case spec.Object:
+		for _, a := range t.Attrs {
+			if a.Type.Kind == spec.Union {
+				found = true
+				if names != nil {
+					names[spec.Norm(a.Name)] = true
+				}
+			}
+		}
+	}
+	return found
+}
+
+var goIdentRe = regexp.MustCompile(`[A-Za-z_][A-Za-z0-9_]*`)
+
+// streamPayloadNames reports whether a diagnostic mentions the Go name of a primitive alias type or of a
+// union attribute reachable from the StreamingPayload of an HTTP streaming method.
+func streamPayloadNames(sp *spec.Spec, dg string) bool {
+	names := map[string]bool{}
+	streamPayloadHas(sp, func(t *spec.Type) bool { aliasOrUnionName(sp, t, names); return false })
+	if len(names) == 0 {
+		return false
+	}
+	if i := strings.Index(dg, ": "); i >= 0 {
+		dg = dg[i+2:] // the message, not the file name
+	}
+	for _, id := range goIdentRe.FindAllString(dg, -1) {
+		if names[spec.Norm(id)] {
+			return true
+		}
+	}
+	return false
+}
+
+// streamMsgStringLength reports whether some HTTP streaming method streams (or, client stream, returns) a
+// primitive, array or map whose strings carry a length validation outside of any user type.
+func streamMsgStringLength(sp *spec.Spec) bool {
+	var has func(a *spec.Attr) bool
+	has = func(a *spec.Attr) bool {
+		if a == nil || a.Type == nil {
+			return false
+		}
+		switch a.Type.Kind {
+		case spec.String:
+			return a.Val != nil && (a.Val.MinLen != nil || a.Val.MaxLen != nil)
+		case spec.Array, spec.Map:
+			return has(a.Type.Key) || has(a.Type.Elem)
+		}
+		return false
+	}
+	for _, sv := range sp.Services {
+		for _, m := range sv.Methods {
+			if m.Stream != "" && m.HTTP != nil && (has(m.StreamP) || has(m.Result)) {
+				return true
+			}
+		}
+	}
+	return false
+}
+
+// sampleSpec redraws the spec a check generates at a given index (debugging aid).
+func sampleSpec(run *vc.Run, prop string, idx int) *spec.Spec {
+	id := fmt.Sprintf("%d", idx)
+	if prop == "C01" {
+		prof := c01Profiles[idx%len(c01Profiles)]
+		return gen.Generate(run.Rand(1, uint64(idx)), id, gen.Opts{Profile: prof, Thorough: run.Thorough()})
+	}
+	var c *rtCheck
+	switch prop {
+	case "C02":
+		c = checkC02()
+	case "C03":
+		c = checkC03()
+	case "C04":
+		c = checkC04()
+	case "C05":
+		c = checkC05()
+	case "C06":
+		c = checkC06()
+	case "C07":
+		c = checkC07()
+	case "C08":
+		c = checkC08()
+	case "C14":
+		c = checkC14()
+	default:
+		return nil
+	}
+	prof := c.Profiles[idx%len(c.Profiles)]
+	return gen.Generate(run.Rand(2, uint64(idx)), id, gen.Opts{Profile: prof, Runtime: true, Thorough: run.Thorough(), Files: c.AllowFiles, Streams: c.Streams})
 }
